@@ -23,6 +23,7 @@ import (
 	"strings"
 	"sync"
 	"time"
+	"unicode/utf8"
 )
 
 var (
@@ -71,6 +72,16 @@ func Parse(str string, l ZitiQlListener) []ParseError {
 }
 
 func ParseWithDebug(str string, l ZitiQlListener, debug bool) []ParseError {
+	if !utf8.ValidString(str) {
+		// the input stream would turn every invalid byte into U+FFFD, which a string literal accepts: the query
+		// would be about another string than the one written
+		return []ParseError{{
+			Line:    1,
+			Column:  0,
+			Symbol:  "<invalid utf-8>",
+			Message: "Unexpected symbol: the query is not valid UTF-8",
+		}}
+	}
 	el := newErrorListener()
 	parse(str, l, el, debug)
 	return el.Errors
